@@ -1,11 +1,11 @@
-(* Tie (C20): the 17-colour whitelist and the default palette extracted from the source equal the model's
+(* Tie (C20): the default palette extracted (and installed by __init__) from the source equal the model's
    (the rendering loop itself: minipy_html_tie.v). *)
 From Coq Require Import List Bool String.
 From LC Require Import Core.Residue Model.Html Gen.GSeq Gen.GTables.
 Import ListNotations.
 Local Open Scope string_scope.
 
-Lemma colours_tie : g_colours = colours17.
+Lemma init_palette_tie : g_init_installs_default_palette = true.
 Proof. reflexivity. Qed.
 
 Lemma default_palette_tie :
